@@ -83,3 +83,37 @@ Theorem C23_associative_sum :
     forall n, 1 <= n ->
       seq_sum A op (map f (seq 0 n)) = Some (Leaves.fold1 A op (f 0) (map f (seq 1 (n - 1)))).
 Proof. exact Leaves.seq_sum_assoc. Qed.
+
+(* ---- tie to the source: the per-task program translated from `allreduce_sum` itself ---- *)
+Require NV.C23.Py NV.C23.Gen_Allreduce NV.C23.ProofsGen.
+
+(* For every partition (empty tasks allowed), message multiplicity M, number B of broadcast
+   collectives and every task r: the loop nest that tr/c23_allreduce.py translated from the current
+   source (Gen_Allreduce.v, regenerated on every run) never runs out of fuel, and the actions it
+   lists for task r -- two set-up collectives in front, every transfer expanded into M
+   point-to-point messages, B collectives behind -- are exactly the rank program of the model,
+   i.e. the programs whose every interleaving C23_value and C23_no_deadlock quantify over. *)
+Theorem C23_source_rank_program :
+  forall (part : list nat) (M B r : nat),
+    r < length part ->
+    exists acts,
+      Gen_Allreduce.Gen_prog (who part) (list_sum part) r = Some acts /\
+      rank_program part M B r =
+        [(4, 0); (4, 0)] ++ flat_map (ProofsGen.expand_l M r) acts ++ repeat (4, 0) B.
+Proof. exact ProofsGen.source_rank_program. Qed.
+
+(* comm=None (one task owning everything): the translated loop performs exactly the model's local
+   additions in the model's order, and returns the cell the model reads. *)
+Theorem C23_source_sequential :
+  forall (A : Type) (op : A -> A -> A) (vals : list A),
+    exists acts,
+      Gen_Allreduce.Gen_prog (fun _ => 0) (length vals) 0 = Some acts /\
+      fold_left (ProofsGen.exec_local A op) acts (map Some vals) = seq_run A op vals /\
+      Gen_Allreduce.Gen_result_index = 0.
+Proof. exact ProofsGen.source_sequential. Qed.
+
+(* The broadcast root named in the source is the owner of the returned cell. *)
+Theorem C23_source_bcast_root :
+  forall part : list nat,
+    Gen_Allreduce.Gen_bcast_root (who part) = who part Gen_Allreduce.Gen_result_index.
+Proof. exact ProofsGen.source_bcast_root. Qed.
